@@ -440,7 +440,7 @@ func (w *world) Outcome() string { return w.outcome }
 var alphabets = map[string][]string{
 	"membership": {"kick", "lazy-membership"},
 	"moderation": {"kick", "op", "unop", "present", "unpresent", "lazy"},
-	"data":       {"setdata", "unpresent", "lazy"},
+	"data":       {"setdata", "unpresent", "lazy", "lazy-membership"},
 	"whip":       {"kick", "whip"},
 }
 
